@@ -6,7 +6,9 @@ EXTENDS Config, Sequences, Json, IOUtils
 Traces == JsonDeserialize(IOEnv.TRACE_FILE)
 VARIABLES tid, l
 Ev == Traces[tid][l]
-Clause(name, b) == IF b THEN TRUE ELSE PrintT(<<"FAIL", tid, l, name>>) /\ FALSE
+\* diagnostic mode (ALLCLAUSES = "1", trace-mutation self-test only): a failing clause is reported and evaluation goes on, so that clauses
+\* shadowed by an earlier one in the same conjunction are exercised too; in every registered check ALLCLAUSES = "0"
+Clause(name, b) == IF b THEN TRUE ELSE PrintT(<<"FAIL", tid, l, name>>) /\ (IOEnv.ALLCLAUSES = "1")
 AsSet(s) == IF s = <<NoneV>> THEN {NoneV} ELSE { s[i] : i \in DOMAIN s }
 DeclareEv(e) == /\ Declare(e.n, [value |-> e.value, vals |-> AsSet(e.vals), lo |-> e.lo, up |-> e.up])
                 /\ Clause("declare-outcome", e.out = last')
